@@ -158,11 +158,39 @@ def tolerated_exc(kinds, ir, exc, active):
     return False
 
 
-def tolerated(kind, where, code, want, opts, active):
+def _typename(v):
+    return type(v).__name__
+
+
+# the exact wrong outcome of a known finding, where the parsed-back entry is at hand: id -> predicate(code, want entry, got entry).
+# A tolerance of TOL applies only if its pin (when it has one) accepts what actually came back - a different wrong answer in the
+# same region is a different violation.
+TOL_PIN = {
+    # `= None` invented: the type may only become Optional[<same type>], the prose may only gain the sentence announcing None
+    "KF-RT-fn-none-default": lambda c, w, g: (
+        c == "default-invented-none"
+        or (c == "typ-changed" and g.get("typ") == "Optional[%s]" % w.get("typ"))
+        or (c == "doc" and (g.get("doc") or "").rstrip(".").endswith("Defaults to None")
+            and (g.get("doc") or "").startswith((w.get("doc") or "").rstrip(".,")))),
+    # the type is replaced by the type NAME of the default value, nothing else
+    "KF-RT-fn-typ-from-default": lambda c, w, g: g.get("typ") == _typename(w.get("default")),
+    # None -> exactly the zero value of the declared scalar type
+    "KF-RT-class-none-to-zero": lambda c, w, g: "default" in g and type(g["default"]) is type(ZERO[w["typ"]]) and g["default"] == ZERO[w["typ"]],
+    # the code default comes back as the same text wrapped in quotes
+    "KF-RT-argparse-ret-codequoted": lambda c, w, g: isinstance(g.get("default"), str) and str(w.get("default")).strip("`") in g["default"],
+}
+
+
+def tolerated(kind, where, code, want, opts, active, got=None):
     for kid in active:
         f = TOL.get(kid)
         if f is not None and f(kind, where, code, want, opts):
-            return True
+            pin = TOL_PIN.get(kid)
+            if pin is None or got is None or where in ("params", "summary"):
+                return True
+            g = ((got.get("returns") or {}).get("return_type") or {}) if where == "returns" else got["params"].get(where, {})
+            if pin(code, _entry(want, where), g):
+                return True
     return False
 
 
@@ -183,7 +211,7 @@ def residual(got, want, kind, opts, active, chain=()):
             continue
         if permitted(where, code, kind, want, chain):
             continue
-        if any(tolerated(k, where, code, want, opts, active) for k in (kind,) + tuple(chain)):
+        if any(tolerated(k, where, code, want, opts, active, got=got) for k in (kind,) + tuple(chain)):
             continue
         out.append((where, code))
     return out
